@@ -256,6 +256,18 @@ def run(ctx: Ctx):
         muts.extend(mutations(ch))
     judge_histories(ctx, s, [seq_case(m) for m in muts])
     s.finish()
+    s = Stream(ctx, "complete chains with an EMPTY list as rule subject and / or rule object (a specification that names nothing)", exhaustive=True)
+    empties = []
+    for ch in COMPLETE_CHAINS:
+        naming = [i for i, op in enumerate(ch) if op in ("named", "sub")]
+        for k in range(1, 1 << len(naming)):
+            c = seq_case(ch)
+            for j, i in enumerate(naming):
+                if k >> j & 1:
+                    c["ops"][i] = (ch[i], [])
+            empties.append(c)
+    judge_histories(ctx, s, empties)
+    s.finish()
     s = Stream(ctx, "misspelt / too-deep module names (also level-limited graphs)")
     name_cases(ctx, ctx.rng("names"), ctx.size(4000, 200000), s)
     regex_batch_cases(ctx, ctx.rng("regex-batches"), ctx.size(1500, 20000), s)
